@@ -65,6 +65,12 @@ def build_harness(race=False):
     p = sh(cmd, cwd=HARNESS, env=env, timeout=900)
     if p.returncode != 0:
         raise Broken("harness does not build against /repo with -tags verif", (p.stdout + p.stderr)[-4000:])
+    if not race:
+        # the program itself (package main, without the tag): the cfg stream asks it for its exit status
+        exe = os.path.join(BIN, "cql-proxy")
+        p = sh(["go", "build", "-o", exe, "."], cwd=REPO, env=dict(GOENV), timeout=900)
+        if p.returncode != 0:
+            raise Broken("package main of /repo does not build", (p.stdout + p.stderr)[-4000:])
     return out
 
 
